@@ -1,4 +1,5 @@
 #!/bin/bash
+export VERIF_EVIDENCE_DIR=/scratch/seed_evidence; mkdir -p $VERIF_EVIDENCE_DIR
 # usage: try_seed.sh <patch.diff> <check ids...> : apply to /repo, run the checks, revert
 set -u
 d="$1"; shift
